@@ -241,10 +241,14 @@ def run(prog: Program, res: Result) -> None:
         if not loop_vars:
             bad("R3-same-discriminator", f.node, f"models.Task.{m}::iteration", f"Task.{m} does not iterate over self.variables")
             continue
-        ifexps = [n for n in own_nodes(f) if isinstance(n, ast.IfExp)]
+        # branches (conditional expressions or if statements) inside the iteration that mention the loop variable
+        ifexps = [n for n in own_nodes(f) if isinstance(n, (ast.IfExp, ast.If))
+                  and any(isinstance(x, ast.Name) and x.id in loop_vars for x in ast.walk(n.test))]
         n_disc = 0
         for ie in ifexps:
             t = ie.test
+            if isinstance(t, ast.UnaryOp) and isinstance(t.op, ast.Not):
+                t = t.operand
             okd = isinstance(t, ast.Call) and isinstance(t.func, ast.Attribute) and t.func.attr == "has_children" \
                 and isinstance(t.func.value, ast.Name) and t.func.value.id in loop_vars and not t.args
             n_disc += 1
@@ -305,8 +309,14 @@ def run(prog: Program, res: Result) -> None:
         if okk:
             st = parent(stores[0])
             val = st.value if isinstance(st, ast.Assign) else None
-            okk = isinstance(val, ast.Call) and isinstance(val.func, ast.Attribute) and val.func.attr == "decode" \
-                and isinstance(val.func.value, ast.Name) and val.func.value.id == v
+            val = origin(ts.node, val) if isinstance(val, ast.Name) else val
+
+            def is_decode(e):
+                if isinstance(e, ast.IfExp):
+                    return is_decode(e.body) and is_decode(e.orelse)
+                return isinstance(e, ast.Call) and isinstance(e.func, ast.Attribute) and e.func.attr == "decode" \
+                    and isinstance(e.func.value, ast.Name) and e.func.value.id == v
+            okk = val is not None and is_decode(val)
         res.ob(okk, f"{ts.loc()} solution[v.name] = v.decode(..)", "ts.key")
         if not okk:
             bad("R4-transform-solution", loop, "models.Task.transform_solution::key", "transform_solution does not store v.decode(slice) under v.name for every variable")
@@ -330,7 +340,8 @@ def run(prog: Program, res: Result) -> None:
         okg = set(seen) == {a, b} and seen[a] != seen[b]
         rv = V_.single_return(gb)
         if okg and isinstance(rv, ast.Tuple) and len(rv.elts) == 2:
-            outs = [dotted(x.args[0]) if isinstance(x, ast.Call) and x.args else dotted(x) for x in rv.elts]
+            els = [origin(gb.node, x) if isinstance(x, ast.Name) else x for x in rv.elts]
+            outs = [dotted(x.args[0]) if isinstance(x, ast.Call) and x.args else dotted(x) for x in els]
             okg = outs == [seen[a], seen[b]]
     res.ob(okg, f"{gb.loc()} Task.get_bounds: lower/upper extended in step, returned as (lower, upper)", "task.get_bounds")
     if not okg:
